@@ -95,11 +95,20 @@ def bounds_ok(prog, c, bi, t):
     if co is None or co[0] != "Lt":
         return False
     kk, x = const_int(co[1]), len_of(co[2])
+    if kk is None and x is not None:
+        # xs[xs.len() - 1]: in bounds exactly when xs is not empty
+        i_ = fold(co[1])
+        if i_[0] == "field" and i_[2] == "0":
+            i_ = i_[1]
+        if i_[0] == "bin" and i_[1] in ("Sub", "SubWithOverflow", "SubUnchecked") and const_int(i_[3]) == 1 and len_of(i_[2]) is not None and norm(len_of(i_[2])) == norm(x):
+            kk = 0
     if kk is None or x is None or kk > 8:
         return False
     xn = norm(x)
-    if not (x[0] == "param"):
-        return all(bi not in c.assume_len(lambda y: norm(y) == xn, v).settle().T.reach for v in range(0, kk + 1))
+    local = all(bi not in c.assume_len(lambda y: norm(y) == xn, v).settle().T.reach for v in range(0, kk + 1))
+    if not (x[0] == "param") or local:
+        # (the test may be in this function or in a callee it `?`-propagates, e.g. an allow-list check that refuses an empty route)
+        return local
     # parameter: every caller must exclude the short lengths before the call
     ncalls = 0
     for cb in prog.fn_bodies(c.body.crate):
